@@ -160,6 +160,18 @@ CHECKS = {
              "objects: applying the returned JSON patch with an independent RFC 6902 implementation must equal transformations(RFC 7386 "
              "merge(object, requested)) up to empty mappings. One genuine defect (mapping over scalar crashed the request) was repaired.",
         design_ref='DESIGN.md §6 C18'),
+    'C08': dict(
+        technique="stateless model checking of the implementation: exhaustive enumeration of the position of concurrent foreign writes "
+                  "and injected 404/422 answers among the requests of patch_obj and its carry-over rounds, judged on the server's log",
+        text="The real patch_obj + Patch.as_json_patch + carry-over loop run against the in-memory API server for every patch content "
+             "(none/body/status/both) x transformation set (add/remove finalizer among foreign ones, a non-idempotent append, a status "
+             "counter, combinations) x status subresource on/off x foreign writes (spec, foreign finalizer, status, delete, "
+             "delete+recreate, pairs); the explorer enumerates every placement of the foreign writes among the up-to-four requests "
+             "and the later rounds, and injects 404/422 answers. Oracle on the request log: complete merge fields, once, on the right "
+             "endpoint; every successful JSON-patch == transformations applied to the state immediately before it; nothing written on "
+             "422 and everything carried forward; each transformation effective exactly once overall; 404 silent; no write on another "
+             "uid (the name-reuse hole of merge-patches is a recorded known finding).",
+        design_ref='DESIGN.md §6 C08'),
 }
 
 
